@@ -40,7 +40,7 @@ func recvBounded(rt *network.Router, cid string, bd time.Duration, froms ...shar
 // right payloads. Repeated several hundred times per case on one router.
 func TestWakeupPairs(t *testing.T) {
 	const test = "WakeupPairs"
-	vlib.Check(t, 160, func(t *rapid.T) {
+	vlib.Check(t, 240, func(t *rapid.T) {
 		bd := waitBound()
 		members := []sharing.ID{1, 2, 3}
 		d := newCtlDelivery(1, members)
